@@ -77,6 +77,8 @@ class Sched:
         self.recorded = []           # (step, k) for every decision that was not the base policy's first choice
         self.nopts = []              # number of options at each decision (for sweeps)
         self.main_task = None
+        self.shared_steps = []
+        self._mark_shared = False
 
     # ------------------------------------------------------------------ task side
     def me(self):
@@ -92,12 +94,14 @@ class Sched:
             self.yield_point()
         return self._line_tracer
 
-    def yield_point(self, pred=None, what=None, timed=False):
+    def yield_point(self, pred=None, what=None, timed=False, shared=False):
         t = self.by_thread.get(threading.get_ident())
         if t is None:
             return
         if self.aborted:
             raise Abort()
+        if shared:
+            self._mark_shared = True
         if what is not None:
             self.trace.append((t.index, what))
         if pred is not None:
@@ -147,6 +151,10 @@ class Sched:
                     return
                 raise Abort()
             self.steps += 1
+            if self._mark_shared:
+                # this decision is taken right before an access to state shared between threads (see poolsim.traced_class)
+                self.shared_steps.append(self.steps)
+                self._mark_shared = False
             if self.steps > self.max_steps:
                 self.outcome = ("budget",)
                 self._stop()
